@@ -20,6 +20,7 @@
 
     No proofs in this file. *)
 From Teleport Require Import Base.Bytes Base.Outcome.
+From Teleport Require Base.Fmt.
 Local Open Scope N_scope.
 
 (** ** uint64 arithmetic and heights *)
@@ -191,16 +192,9 @@ Definition check_proof_result (result value : bytes) : bool :=
 Definition consensus_key (h : height) : bytes :=
   B "consensusStates/" ++ be_fixed 8 (rn h) ++ be_fixed 8 (rh h).
 
-(** [%d] of a uint64 (at most 20 digits) *)
-Fixpoint dec_fuel (f : nat) (n : N) (acc : bytes) : bytes :=
-  match f with
-  | O => acc
-  | S f' =>
-      let acc' := byte_of_N (48 + n mod 10) :: acc in
-      if n / 10 =? 0 then acc' else dec_fuel f' (n / 10) acc'
-  end.
-
-Definition dec_of_N (n : N) : bytes := dec_fuel 20 n [].
+(** [%d] of a uint64: the decimal rendering of Base/Fmt.v (the one the regenerated key formats of
+    Gen/KeysGen.v are rendered with, see Proofs/EvmProofKeys.v) *)
+Definition dec_of_N (n : N) : bytes := Fmt.dec n.
 
 (** [PacketCommitmentKey] / [PacketAcknowledgementKey]:
     "commitments/{src}/{dst}/sequences/{seq}" and "acks/{src}/{dst}/sequences/{seq}" *)
